@@ -9,6 +9,11 @@ STRENGTHENED = [
  ("C03-D", "C03: two reduced-alphabet scenarios one level deeper: a fork off the MIDDLE of a path that becomes stable in one step, head on the fork"),
  ("C06-C", "C06: tamper 'gasPayer field emptied on the wire' (nil pointer in the encoding; the accessor answers the sender)"),
  ("C16-C", "C16: boundary-operand programs: every memory / copy / size-taking instruction with operands around 2^32, 2^63, 2^64, 2^256-1, alone and behind a call that leaves return data"),
+ ("C04-C", "C04: pruning scenario on 3 deputies (the payload on sibling forks, a confirm that makes one branch stable and prunes the other, the payload offered again)"),
+ ("C02-D", "C04: the restart-centred scenario also at the last second of the window (edge of the 30-minute reload horizon of the replay cache)"),
+ ("C01-D", "C01 phase 1: a rejected sibling that carries OTHER transactions and is refused only after execution and Finalise (flipped version root)"),
+ ("C16-D", "C16: the term-reward precompile on top of earlier settings (one negative) under all 6 controlled map iteration orders (source overlay pass maprange on chain/vm/contracts.go)"),
+ ("C11-C, C11-D", "C11: phases R (work the miner rolls back: boxes with failing later sub-transactions, gas limit reached inside a box, reverting value flows) and T (term boundaries: rewards and refunds crossing the vote step of voting receivers), built by the C11 extension; genuine defect d76a359 found on the way"),
  ("C13-C", "C13: schedule phase drives the real (*Miner).schedule / mine timer / retry timer under the virtual clock with deputy counts that differ across the term change (built by the C13 extension after this seed)"),
  ("C15-A", "C15: fault menu on the node's WRITES (write error, remote closed, write deadline) for every request that makes the node answer; oracle: Run returns, the server forgets the connection, the same id is welcome again"),
  ("C15-B", "C15: seq/block-cache family: every block sequence of length <= 4 that drives the orphan cache and the evil-deputy list"),
